@@ -10,4 +10,4 @@ for id in "$@"; do
   echo "== $id rc=$rc $(echo "$out" | grep -m1 -E 'violation:|INCONCLUSIVE' | cut -c1-300)"
 done
 cd /repo && git checkout -- . && git status --short | grep -v renaming.gif
-rm -rf /verif/replays
+# (replays/ is ignored by git; left in place: other runs may be looking at theirs)
